@@ -41,6 +41,28 @@ def r3_make_all(ctx):
             unmakes.append(b)
         elif k.endswith("::Vec::push") or k.endswith("::push"):
             pushes.append(b)
+    if not unmakes:
+        # iterator idiom: the roll-back is a closure that unmakes, driven by for_each / try_for_each / fold over the list
+        prog = ctx.prog
+        for b in sorted(cfg.reach):
+            t = f["blocks"][b]["term"]
+            if t["k"] != "call" or f["blocks"][b]["cleanup"]:
+                continue
+            k = t["callee"].get("key") or ""
+            if k.rsplit("::", 1)[-1] not in ("for_each", "try_for_each", "fold", "try_fold", "all", "any", "map"):
+                continue
+            args = [ex.operand(a) for a in t["args"]]
+            cl = [x for a in args for x in leaves(a) if x[0] == "agg" and x[1] == "closure"]
+            if not any(any(bb_["term"]["k"] == "call" and (bb_["term"]["callee"].get("key") or "") == B.UNMAKE for bb_ in (prog.fns.get(c[2]) or {"blocks": []})["blocks"]) for c in cl):
+                continue
+            chain = [x[1].rsplit("::", 1)[-1] for x in leaves(args[0]) if x[0] == "call"]
+            backwards = any(n in ("rev", "pop", "next_back", "rfold", "rposition") for n in chain) or k.rsplit("::", 1)[-1] in ("rfold", "try_rfold")
+            over_list = any(n in ("iter", "into_iter", "drain", "iter_mut") for n in chain)
+            if over_list:
+                ctx.ob(rid, "unmake|in-reverse-loop-over-list", backwards,
+                       "" if backwards else "make_all_uci takes the made moves back oldest first (%s without rev): unmake restores from the undo information of the move it is given, so only the reverse order leads back to the original position - after a rejected list of three or more moves the board is garbled although Err is returned" % ".".join(reversed(chain)),
+                       ctx.where(f, t["line"]))
+                return
     if not makes or not unmakes:
         # snapshot style: the Err path assigns saved copies back to the board's fields. It must cover every field
         # Bitboard::make writes (directly or through the players), otherwise a rejected list leaves that field changed
